@@ -29,7 +29,7 @@ func c10variants(idx int) (string, []grammar.Variant) {
 	spec := grammar.Specs[idx%nspec]
 	r := rng.New(c10.seed, rng.Str("C10"), uint64(idx))
 	v := grammar.Generate(spec, r, fmt.Sprintf("t%d", idx))
-	return spec.Name, grammar.IllFormed(v, c10.tier == "thorough")
+	return spec.Name, grammar.IllFormed(v, true)
 }
 
 func c10run(idx int) run.Result {
